@@ -310,10 +310,14 @@ def _iter_domain(fi: FnInfo, it: ast.expr, target: ast.expr, keyname: str, seen=
     if isinstance(e, ast.Name) and isinstance(target, ast.Name) and target.id == keyname and e.id not in seen:
         # a local list filled only by .append(x) with x a present key
         return _collected_domain(fi, e.id, seen + (e.id,))
+    if isinstance(e, ast.Name) and isinstance(target, (ast.Tuple, ast.List)) and isinstance(first, ast.Name) \
+            and first.id == keyname and e.id not in seen:
+        # a local list of tuples (x, ...) with x a present key
+        return _collected_domain(fi, e.id, seen + (e.id,), tuple_first=True)
     return None
 
 
-def _collected_domain(fi: FnInfo, lst: str, seen) -> Optional[str]:
+def _collected_domain(fi: FnInfo, lst: str, seen, tuple_first: bool = False) -> Optional[str]:
     defs = fi.strong_defs(lst)
     for d in defs:
         v = d.value if isinstance(d, (ast.Assign, ast.AnnAssign)) else None
@@ -323,9 +327,16 @@ def _collected_domain(fi: FnInfo, lst: str, seen) -> Optional[str]:
     for c in [n for n in walk_local(fi.fn) if isinstance(n, ast.Call)]:
         f = c.func
         if isinstance(f, ast.Attribute) and isinstance(f.value, ast.Name) and f.value.id == lst:
-            if f.attr != "append" or len(c.args) != 1 or not isinstance(c.args[0], ast.Name):
+            if f.attr != "append" or len(c.args) != 1:
                 return None
-            dom = _name_domain(fi, c.args[0].id, c, seen)
+            item = c.args[0]
+            if tuple_first:
+                if not (isinstance(item, ast.Tuple) and item.elts):
+                    return None
+                item = item.elts[0]
+            if not isinstance(item, ast.Name):
+                return None
+            dom = _name_domain(fi, item.id, c, seen)
             if dom is None:
                 return None
             doms.add(dom)
@@ -475,8 +486,13 @@ def _norm_stmt(s: ast.stmt, exit_kind) -> None:
 class _Rewrite(ast.NodeTransformer):
     """dict.update({k: v}) -> item stores; `L = [e for t in IT if C]` -> explicit loop; aliases of the five dicts."""
 
-    def __init__(self, aliases: dict[str, str]):
+    def __init__(self, aliases: dict[str, str], derived: frozenset = frozenset()):
         self.aliases = aliases
+        self.derived = derived      # local lists computed from the container's data
+
+    def _from_self(self, comp: ast.ListComp) -> bool:
+        return "self" in names_in(comp) or any(isinstance(g.iter, ast.Name) and g.iter.id in self.derived
+                                                for g in comp.generators)
 
     def visit_Name(self, n: ast.Name):
         if n.id in self.aliases and isinstance(n.ctx, ast.Load):
@@ -542,14 +558,14 @@ class _Rewrite(ast.NodeTransformer):
         self.generic_visit(s)
         if len(s.targets) == 1 and isinstance(s.targets[0], ast.Name) and isinstance(s.value, ast.ListComp) \
                 and len(s.value.generators) == 1 and s.targets[0].id not in names_in(s.value) \
-                and "self" in names_in(s.value):
+                and self._from_self(s.value):
             return self._comp_to_loop(s, s.targets[0], s.value)
         return s
 
     def visit_AnnAssign(self, s: ast.AnnAssign):
         self.generic_visit(s)
         if isinstance(s.target, ast.Name) and isinstance(s.value, ast.ListComp) and len(s.value.generators) == 1 \
-                and s.target.id not in names_in(s.value) and "self" in names_in(s.value):
+                and s.target.id not in names_in(s.value) and self._from_self(s.value):
             return self._comp_to_loop(s, s.target, s.value)
         return s
 
@@ -669,7 +685,16 @@ def _normalise_methods(meths: dict[str, ast.FunctionDef]) -> tuple[dict[str, ast
     out: dict[str, ast.FunctionDef] = {}
     for name, fn in meths.items():
         f2 = copy.deepcopy(fn)
-        f2 = _Rewrite(_dict_aliases(f2)).visit(f2)
+        derived: set[str] = set()
+        for _ in range(3):      # lists computed from self data, and lists computed from those
+            for st in stmts_local(f2):
+                if isinstance(st, (ast.Assign, ast.AnnAssign)) and isinstance(st.value, ast.ListComp):
+                    tg = assigned_targets(st)
+                    if len(tg) == 1 and isinstance(tg[0], ast.Name) and (
+                            "self" in names_in(st.value) or any(isinstance(g.iter, ast.Name) and g.iter.id in derived
+                                                                for g in st.value.generators)):
+                        derived.add(tg[0].id)
+        f2 = _Rewrite(_dict_aliases(f2), frozenset(derived)).visit(f2)
         ast.fix_missing_locations(f2)
         f2.body = _norm_block(f2.body, ast.Return)
         out[name] = f2
@@ -895,11 +920,18 @@ def _selection_loops(fi: FnInfo):
         # names holding the pair of ivar
         pair_names = set()
         lit = loop.iter
+        src_iter = loop.iter
         if isinstance(lit, ast.Call) and call_name(lit) in ("list", "tuple") and len(lit.args) == 1:
             lit = lit.args[0]
         if len(tnames) == 2 and isinstance(lit, ast.Call) and isinstance(lit.func, ast.Attribute) \
                 and lit.func.attr == "items" and _self_dict(lit.func.value) == IF_SD:
             pair_names.add(tnames[1])
+        if len(tnames) == 2 and isinstance(lit, ast.Name):
+            # a local list of (interface, its pair) tuples collected, unfiltered, from some interface source
+            col = _pair_list_source(fi, lit.id)
+            if col is not None:
+                pair_names.add(tnames[1])
+                src_iter = col
         for s in loop.body:
             if isinstance(s, ast.Assign) and len(s.targets) == 1 and isinstance(s.targets[0], ast.Name):
                 v = s.value
@@ -916,8 +948,30 @@ def _selection_loops(fi: FnInfo):
             apps = [c for st in iff.body for c in ast.walk(st) if isinstance(c, ast.Call) and call_name(c) == "append"
                     and len(c.args) == 1 and u(c.args[0]) == ivar and isinstance(c.func.value, ast.Name)]
             if apps and not iff.orelse:
-                out.append((loop, ivar, pair_names, iff, apps[0].func.value.id, params))
+                out.append((loop, ivar, pair_names, iff, apps[0].func.value.id, params, src_iter))
     return out
+
+
+def _pair_list_source(fi: FnInfo, lst: str) -> Optional[ast.expr]:
+    """If local list `lst` is filled, unconditionally and only, by `lst.append((x, <pair of x>))` in one loop `for x in SRC`,
+    return SRC."""
+    apps = [c for c in walk_local(fi.fn) if isinstance(c, ast.Call) and isinstance(c.func, ast.Attribute)
+            and isinstance(c.func.value, ast.Name) and c.func.value.id == lst and c.func.attr in ("append", "extend", "insert")]
+    if len(apps) != 1 or apps[0].func.attr != "append" or len(apps[0].args) != 1:
+        return None
+    item = apps[0].args[0]
+    st = enclosing_stmt(fi.pm, apps[0])
+    loop = fi.pm.get(st)
+    if not (isinstance(loop, ast.For) and isinstance(loop.target, ast.Name) and fi.in_body(loop, st)):
+        return None
+    x = loop.target.id
+    if not (isinstance(item, ast.Tuple) and len(item.elts) == 2 and u(item.elts[0]) == x
+            and u(item.elts[1]) in (f"self.{IF_SD}[{x}]", f"self.interface_to_subdomain_pair({x})")):
+        return None
+    inits = [d for d in fi.strong_defs(lst)]
+    if not all(isinstance(d, (ast.Assign, ast.AnnAssign)) and isinstance(d.value, ast.List) and not d.value.elts for d in inits):
+        return None
+    return loop.iter
 
 
 def _pair_test(test: ast.expr, pair_names: set[str], params: set[str]):
@@ -978,9 +1032,8 @@ def _r3(ctx: Ctx, mod, infos: dict[str, FnInfo]) -> None:
                 continue
         if len(sels) != 1:
             raise Undecided(f"{MD}:{CLS}.{name}: expected one interface selection loop, found {len(sels)}")
-        loop, ivar, pair_names, iff, lst, params = sels[0]
+        loop, ivar, pair_names, iff, lst, params, it = sels[0]
         # (a) source covers all interfaces
-        it = loop.iter
         src_ok: Optional[bool] = None
         if isinstance(it, ast.Call) and u(it.func) == "self.interfaces":
             src_ok = not it.args and not it.keywords
@@ -1032,6 +1085,29 @@ def _r3(ctx: Ctx, mod, infos: dict[str, FnInfo]) -> None:
 # ---------------------------------------------------------------------------------------
 # R4 re-keying
 # ---------------------------------------------------------------------------------------
+
+def pair_members(fn: ast.FunctionDef, key: str, dominates) -> dict[str, int]:
+    """Texts that denote member 0 / 1 of the subdomain pair of interface `key`: `P[0]`, `P[1]` for a name P bound to
+    the pair, or the two names of `a, b = <pair>`; only bindings for which dominates(stmt) holds count."""
+    out: dict[str, int] = {}
+    pair_texts = (f"self.{IF_SD}[{key}]", f"self.interface_to_subdomain_pair({key})")
+    for t_ in pair_texts:
+        out[f"{t_}[0]"], out[f"{t_}[1]"] = 0, 1
+    for s in stmts_local(fn):
+        if isinstance(s, (ast.Assign, ast.AnnAssign)) and s.value is not None and u(s.value) in pair_texts:
+            tgts = s.targets if isinstance(s, ast.Assign) else [s.target]
+            try:
+                if not dominates(s):
+                    continue
+            except Exception:
+                continue
+            for t in tgts:
+                if isinstance(t, ast.Name):
+                    out[f"{t.id}[0]"], out[f"{t.id}[1]"] = 0, 1
+                elif isinstance(t, (ast.Tuple, ast.List)) and len(t.elts) == 2 and all(isinstance(x, ast.Name) for x in t.elts):
+                    out[t.elts[0].id], out[t.elts[1].id] = 0, 1
+    return out
+
 
 def _r4(ctx: Ctx, mod, infos: dict[str, FnInfo]) -> None:
     # ---- add_interface stores the sorted pair
@@ -1114,32 +1190,27 @@ def _r4(ctx: Ctx, mod, infos: dict[str, FnInfo]) -> None:
         raise AnchorError(f"{MD}:{q}: no update of {IF_SD}")
     covered = set()
     for e in ups:
-        # guarding test pair[i] == old
+        # guarding test <member i of the interface's pair> == old
+        members = pair_members(fi.fn, u(e.key), lambda st: fi.dominates(fi.node(st), fi.node(e.stmt)))
+        if not members:
+            raise Undecided(f"{MD}:{q}: the subdomain pair of `{u(e.key)}` is not looked up before it is re-keyed")
         pos = None
-        pair = None
         for par, child in fi.enclosing(e.node, (ast.If,)):
             if not fi.in_body(par, child):
                 continue
             t = par.test
             if isinstance(t, ast.Compare) and len(t.ops) == 1 and isinstance(t.ops[0], (ast.Eq, ast.Is)):
-                for a, b in ((t.left, t.comparators[0]), (t.comparators[0], t.left)):
-                    if isinstance(a, ast.Subscript) and isinstance(a.value, ast.Name) and isinstance(a.slice, ast.Constant) \
-                            and a.slice.value in (0, 1) and u(b) == old:
-                        pos, pair = a.slice.value, a.value.id
+                for a_, b_ in ((t.left, t.comparators[0]), (t.comparators[0], t.left)):
+                    if u(a_) in members and u(b_) == old:
+                        pos = members[u(a_)]
             if pos is not None:
                 break
         if pos is None:
-            raise Undecided(f"{MD}:{q}: update of {IF_SD}[{u(e.key)}] not guarded by `pair[i] == {old}`")
-        # the pair must be the pair of this interface
-        pv = fi.value_defs(pair, e.stmt) or []
-        pair_ok = bool(pv) and all(
-            (isinstance(x, ast.Call) and u(x.func) == "self.interface_to_subdomain_pair" and [u(a) for a in x.args] == [u(e.key)])
-            or (isinstance(x, ast.Subscript) and _self_dict(x.value) == IF_SD and u(x.slice) == u(e.key)) for x in pv)
-        if not pair_ok:
-            raise Undecided(f"{MD}:{q}: `{pair}` is not the stored pair of `{u(e.key)}`")
+            raise Undecided(f"{MD}:{q}: update of {IF_SD}[{u(e.key)}] not guarded by `<pair member> == {old}`")
         val = e.value
         ok = (isinstance(val, ast.Tuple) and len(val.elts) == 2 and u(val.elts[pos]) == new
-              and u(val.elts[1 - pos]) == f"{pair}[{1 - pos}]")
+              and members.get(u(val.elts[1 - pos])) == 1 - pos)
+        pair = "pair"
         covered.add(pos)
         ctx.check("R4", ok, mod, q, e.node,
                   f"replacing the subdomain at position {pos} of an interface's pair must store the new subdomain at "
@@ -1418,20 +1489,19 @@ def _r5_argsort(ctx: Ctx, mod, fi: FnInfo) -> None:
     grids = grids[0]
     if _r5_argsort_keyed(ctx, mod, fi, grids, q):
         return
-    nests = []
-    for outer in [s for s in body_nodoc(fn) if isinstance(s, ast.For)]:
-        for inner in [s for s in outer.body if isinstance(s, ast.For)]:
-            if isinstance(inner.iter, ast.Call) and call_name(inner.iter) == "enumerate" and \
-                    [u(a) for a in inner.iter.args] == [grids]:
-                nests.append((outer, inner))
-    if len(nests) != 1:
-        raise Undecided(f"{MD}:{q}: not in the recognised form `for dim in <descending>: for i, g in enumerate({grids})`")
-    outer, inner = nests[0]
-    if not (isinstance(outer.target, ast.Name) and isinstance(inner.target, ast.Tuple) and len(inner.target.elts) == 2
-            and all(isinstance(x, ast.Name) for x in inner.target.elts)):
-        raise Undecided(f"{MD}:{q}: loop targets not recognised")
+    # the accumulated per-dimension blocks
+    rets = [s for s in body_nodoc(fn) if isinstance(s, ast.Return)]
+    if not rets or not (isinstance(rets[-1].value, ast.Call) and call_name(rets[-1].value) in ("hstack", "concatenate")
+                        and len(rets[-1].value.args) == 1 and isinstance(rets[-1].value.args[0], ast.Name)):
+        raise Undecided(f"{MD}:{q}: final return is not hstack/concatenate of a list of per-dimension blocks")
+    ACC = rets[-1].value.args[0].id
+    outers = [s for s in body_nodoc(fn) if isinstance(s, ast.For) and isinstance(s.target, ast.Name) and any(
+        isinstance(x, ast.Expr) and isinstance(x.value, ast.Call) and call_name(x.value) == "append"
+        and u(x.value.func.value) == ACC for x in s.body)]
+    if len(outers) != 1:
+        raise Undecided(f"{MD}:{q}: not in a recognised form (one loop over dimensions appending a block to `{ACC}`)")
+    outer = outers[0]
     dvar = outer.target.id
-    ivar, gvar = inner.target.elts[0].id, inner.target.elts[1].id
 
     # (1) outer range: descending from dim_max() to 0 inclusive
     it = outer.iter
@@ -1470,29 +1540,79 @@ def _r5_argsort(ctx: Ctx, mod, fi: FnInfo) -> None:
                   "are silently dropped from every listing",
                   construct=f"dimension coverage {u(it)}", facts={"lowest": lowest})
 
-    # (2) selection of grids of the current dimension, lock-step index/id
-    sel = [s for s in inner.body if isinstance(s, ast.If)]
-    if len(sel) != 1 or sel[0].orelse:
-        raise Undecided(f"{MD}:{q}: expected one `if grid.dim == dim` in the inner loop")
-    t = sel[0].test
-    ok_t = isinstance(t, ast.Compare) and len(t.ops) == 1 and isinstance(t.ops[0], ast.Eq) and \
-        {u(t.left), u(t.comparators[0])} == {f"{gvar}.dim", dvar}
-    if not ok_t:
-        raise Undecided(f"{MD}:{q}: inner selection test `{u(t)}` not recognised")
-    apps = {}
-    for s in sel[0].body:
-        if isinstance(s, ast.Expr) and isinstance(s.value, ast.Call) and call_name(s.value) == "append" and \
-                isinstance(s.value.func.value, ast.Name) and len(s.value.args) == 1:
-            apps[s.value.func.value.id] = s.value.args[0]
-    if len(apps) != 2:
-        raise Undecided(f"{MD}:{q}: expected two lock-step appends (position, key) under the selection")
+    # (2) sequences over the grids of the current dimension, as element expressions in ($i = position, $g = grid)
+    def is_dim_test(t: ast.expr, g: str) -> bool:
+        return isinstance(t, ast.Compare) and len(t.ops) == 1 and isinstance(t.ops[0], ast.Eq) and \
+            {u(t.left), u(t.comparators[0])} == {f"{g}.dim", dvar}
+
+    def canon(e: ast.expr, i: Optional[str], g: str):
+        if isinstance(e, ast.Tuple):
+            return tuple(canon(x, i, g) for x in e.elts)
+        mp = {g: ast.Name(id="$g", ctx=ast.Load())}
+        if i:
+            mp[i] = ast.Name(id="$i", ctx=ast.Load())
+        return u(subst_many(e, mp))
+
+    def source_vars(it: ast.expr, tgt: ast.expr):
+        """(position var, grid var) if `for tgt in it` runs over the argument in order."""
+        if isinstance(it, ast.Call) and call_name(it) == "enumerate" and [u(a) for a in it.args] == [grids] \
+                and isinstance(tgt, ast.Tuple) and len(tgt.elts) == 2 and all(isinstance(x, ast.Name) for x in tgt.elts):
+            return tgt.elts[0].id, tgt.elts[1].id
+        if u(it) == grids and isinstance(tgt, ast.Name):
+            return None, tgt.id
+        return None
+
+    seqs: dict[str, object] = {}
+    for inner in [s for s in outer.body if isinstance(s, ast.For)]:
+        sv = source_vars(inner.iter, inner.target)
+        if sv is None:
+            continue
+        sel = [s for s in inner.body if isinstance(s, ast.If)]
+        if len(sel) != 1 or sel[0].orelse or len(inner.body) != 1:
+            raise Undecided(f"{MD}:{q}: expected one `if grid.dim == dim` in the inner loop")
+        if not is_dim_test(sel[0].test, sv[1]):
+            raise Undecided(f"{MD}:{q}: inner selection test `{u(sel[0].test)}` not recognised")
+        for st in sel[0].body:
+            if isinstance(st, ast.Expr) and isinstance(st.value, ast.Call) and call_name(st.value) == "append" and \
+                    isinstance(st.value.func.value, ast.Name) and len(st.value.args) == 1:
+                seqs[st.value.func.value.id] = canon(st.value.args[0], sv[0], sv[1])
+            else:
+                raise Undecided(f"{MD}:{q}: statement `{u(st)[:50]}` under the dimension selection")
+
+    def seq_elt(e: ast.expr, depth: int = 0):
+        """Element expression of the sequence e denotes (aligned with the grids of this dimension, in argument order)."""
+        if depth > 5:
+            return None
+        e = _strip_array(e)
+        if isinstance(e, ast.Name):
+            if e.id in seqs:
+                return seqs[e.id]
+            r = _resolve_in(outer.body, e.id)
+            return seq_elt(r, depth + 1) if r is not None else None
+        if isinstance(e, (ast.ListComp, ast.GeneratorExp)) and len(e.generators) == 1:
+            g = e.generators[0]
+            sv = source_vars(g.iter, g.target)
+            if sv is not None:
+                if len(g.ifs) != 1 or not is_dim_test(g.ifs[0], sv[1]):
+                    return None
+                return canon(e.elt, sv[0], sv[1])
+            src = seq_elt(g.iter, depth + 1)
+            if src is None or g.ifs:
+                return None
+            if isinstance(g.target, ast.Name):
+                if u(e.elt) == g.target.id:
+                    return src
+                if isinstance(e.elt, ast.Subscript) and u(e.elt.value) == g.target.id and isinstance(e.elt.slice, ast.Constant) \
+                        and isinstance(src, tuple) and isinstance(e.elt.slice.value, int) and 0 <= e.elt.slice.value < len(src):
+                    return src[e.elt.slice.value]
+            if isinstance(g.target, ast.Tuple) and isinstance(src, tuple) and len(g.target.elts) == len(src):
+                names = [u(x) for x in g.target.elts]
+                if u(e.elt) in names:
+                    return src[names.index(u(e.elt))]
+            return None
+        return None
 
     # (3) argsort of the ids applied to the positions, appended, stacked
-    rets = [s for s in body_nodoc(fn) if isinstance(s, ast.Return)]
-    if not rets or not (isinstance(rets[-1].value, ast.Call) and call_name(rets[-1].value) in ("hstack", "concatenate")
-                        and len(rets[-1].value.args) == 1 and isinstance(rets[-1].value.args[0], ast.Name)):
-        raise Undecided(f"{MD}:{q}: final return is not hstack/concatenate of a list")
-    ACC = rets[-1].value.args[0].id
     accs = [s.value for s in outer.body if isinstance(s, ast.Expr) and isinstance(s.value, ast.Call)
             and call_name(s.value) == "append" and u(s.value.func.value) == ACC]
     if len(accs) != 1:
@@ -1504,7 +1624,7 @@ def _r5_argsort(ctx: Ctx, mod, fi: FnInfo) -> None:
     reason = None
 
     def classify_perm(sl: ast.expr, depth: int = 0):
-        """-> (kind, key list, reason): kind 'sort' = ascending argsort of the key list, 'inverse' = its inverse
+        """-> (kind, key element, reason): kind 'sort' = ascending argsort of the key sequence, 'inverse' = its inverse
         permutation (argsort of the argsort)."""
         why = None
         if isinstance(sl, ast.Name):
@@ -1515,32 +1635,29 @@ def _r5_argsort(ctx: Ctx, mod, fi: FnInfo) -> None:
         if not (isinstance(sl, ast.Call) and call_name(sl) == "argsort" and sl.args):
             raise Undecided(f"{MD}:{q}: positions are not permuted by np.argsort(...): `{u(sl)[:60]}`")
         arg = _strip_array(sl.args[0])
-        inner = arg
-        if isinstance(inner, ast.Name) and inner.id not in apps:
-            inner = _resolve_in(outer.body, inner.id) or inner
-        if isinstance(inner, ast.Call) and call_name(inner) == "argsort" and depth < 2:
-            k, b, w = classify_perm(inner, depth + 1)
-            return ("inverse" if k == "sort" else "sort"), b, (why or w)
-        if isinstance(arg, ast.UnaryOp) and isinstance(arg.op, ast.USub):
+        inner_ = arg
+        if isinstance(inner_, ast.Name) and inner_.id not in seqs:
+            inner_ = _resolve_in(outer.body, inner_.id) or inner_
+        if isinstance(inner_, ast.Call) and call_name(inner_) == "argsort" and depth < 2:
+            k, b_, w = classify_perm(inner_, depth + 1)
+            return ("inverse" if k == "sort" else "sort"), b_, (why or w)
+        core = arg
+        if isinstance(core, ast.UnaryOp) and isinstance(core.op, ast.USub):
             why = "ids negated before argsort (descending)"
-        elif isinstance(arg, ast.Subscript) and u(arg.slice) == "::-1":
+            core = _strip_array(core.operand)
+        elif isinstance(core, ast.Subscript) and u(core.slice) == "::-1":
             why = "id list reversed before argsort"
-        elif not (isinstance(arg, ast.Name) and arg.id in apps):
-            raise Undecided(f"{MD}:{q}: argsort argument `{u(arg)}` is not the key list filled under the selection")
-        names = [n.id for n in ast.walk(arg) if isinstance(n, ast.Name) and n.id in apps]
-        if len(names) != 1:
-            raise Undecided(f"{MD}:{q}: argsort argument `{u(arg)}` not recognised")
-        return "sort", names[0], why
+            core = core.value
+        key = seq_elt(core)
+        if key is None or isinstance(key, tuple):
+            raise Undecided(f"{MD}:{q}: argsort argument `{u(arg)[:60]}` is not a per-dimension key sequence")
+        return "sort", key, why
 
-    def positions_of(e: ast.expr) -> ast.expr:
-        e = _strip_array(e)
-        for _ in range(3):
-            if isinstance(e, ast.Name) and e.id not in apps:
-                r = _resolve_in(outer.body, e.id)
-                if r is None:
-                    break
-                e = _strip_array(r)
-        return e
+    def positions_of(e: ast.expr):
+        el = seq_elt(e)
+        if el is None or isinstance(el, tuple):
+            raise Undecided(f"{MD}:{q}: `{u(e)[:60]}` is not a per-dimension sequence of positions")
+        return el
 
     # np.take(positions, perm) / positions.take(perm) is the gather positions[perm]
     if isinstance(R, ast.Call) and call_name(R) == "take":
@@ -1557,50 +1674,50 @@ def _r5_argsort(ctx: Ctx, mod, fi: FnInfo) -> None:
                     and isinstance(st_.targets[0].value, ast.Name) and st_.targets[0].value.id == R0.id:
                 scatters.append(st_)
     if isinstance(R, ast.Subscript):
-        # gather: positions[perm]
-        base = positions_of(R.value)
-        if not (isinstance(base, ast.Name) and base.id in apps):
-            raise Undecided(f"{MD}:{q}: permuted array `{u(base)}` is not one of the lists filled under the selection")
-        A = base.id
-        kind, B, reason = classify_perm(R.slice)
+        A_el = positions_of(R.value)
+        kind, B_el, reason = classify_perm(R.slice)
         if kind == "inverse" and reason is None:
             reason = ("positions gathered through the inverse of the id-sorting permutation (argsort of the argsort); "
                       "agrees with the sorted order only for self-inverse permutations")
         form = "gather"
     elif isinstance(R, ast.Call) and call_name(R) in FRESH and len(scatters) == 1:
-        # scatter: out[perm] = positions
         st_ = scatters[0]
-        val = positions_of(st_.value)
-        if not (isinstance(val, ast.Name) and val.id in apps):
-            raise Undecided(f"{MD}:{q}: scattered values `{u(val)}` are not one of the lists filled under the selection")
-        A = val.id
-        kind, B, reason = classify_perm(st_.targets[0].slice)
+        A_el = positions_of(st_.value)
+        kind, B_el, reason = classify_perm(st_.targets[0].slice)
         if kind == "sort" and reason is None:
             reason = ("positions scattered through the argsort of the ids (out[argsort(ids)] = positions): that applies the "
                       "inverse permutation; it equals the sorted order only when the permutation is its own inverse "
                       "(<= 2 grids of a dimension, or already sorted), not for >= 3 grids stored in a cyclically shifted order")
         form = "scatter"
     else:
-        base = _strip_array(R)
-        if isinstance(base, ast.Name) and base.id in apps and u(apps[base.id]) == ivar and not scatters:
+        el = seq_elt(R)
+        if el == "$i" and not scatters:
             reason = "positions appended without sorting by id"
-            A = base.id
-            B = [k for k in apps if k != A][0]
-            form = "unsorted"
+            A_el, form = el, "unsorted"
+            others = [v for v in seqs.values() if v != "$i" and not isinstance(v, tuple)]
+            B_el = others[0] if others else "$g.id"
         else:
-            raise Undecided(f"{MD}:{q}: appended block `{u(R)}` not recognised")
-    if A == B:
-        raise Undecided(f"{MD}:{q}: positions and keys are the same list `{A}`")
-    if u(apps[A]) != ivar:
-        raise Undecided(f"{MD}:{q}: the permuted list `{A}` is not filled with the enumerate position `{ivar}`")
-    ctx.check("R5", u(apps[B]) == f"{gvar}.id", mod, q, apps[B],
-              f"the within-dimension sort key must be the grid's creation id `{gvar}.id` (found `{u(apps[B])}`): any other key "
+            raise Undecided(f"{MD}:{q}: appended block `{u(R)[:70]}` not recognised")
+    if A_el != "$i":
+        raise Undecided(f"{MD}:{q}: the permuted sequence holds `{A_el}`, not the position of the grid in the argument")
+    shown = B_el.replace("$g", "grid").replace("$i", "position")
+    ctx.check("R5", B_el == "$g.id", mod, q, accs[0],
+              f"the within-dimension sort key must be the grid's creation id `grid.id` (found `{shown}`): any other key "
               f"loses the tie-break by id",
-              construct=f"sort key within a dimension: {u(apps[B])}", facts={"key": u(apps[B])})
+              construct=f"sort key within a dimension: {shown}", facts={"key": shown})
     ctx.check("R5", reason is None, mod, q, accs[0],
               f"within one dimension the positions must be permuted by np.argsort of the ids (ascending): {reason}",
               construct=f"per-dimension block {u(accs[0].args[0])} ({form})", facts={"reason": reason, "form": form})
-    ctx.sample({"rule": "R5", "argsort_grids": {"dims": u(it), "select": u(t), "key": u(apps[B]), "block": u(R)}})
+    ctx.sample({"rule": "R5", "argsort_grids": {"dims": u(it), "key": shown, "block": u(R), "form": form}})
+
+
+def subst_many(e: ast.expr, mapping: dict[str, ast.expr]) -> ast.expr:
+    import copy
+
+    class T(ast.NodeTransformer):
+        def visit_Name(self, n):
+            return ast.copy_location(copy.deepcopy(mapping[n.id]), n) if n.id in mapping else n
+    return T().visit(copy.deepcopy(e))
 
 
 # ---------------------------------------------------------------------------------------
@@ -1638,40 +1755,94 @@ def _r6(ctx: Ctx, mod, infos: dict[str, FnInfo], mutators: set[str]) -> None:
 UNIQ_HINTS = ("set", "frozenset", "fromkeys", "unique", "Counter", "count")
 
 
+def _iterates(it: ast.expr, X: str) -> bool:
+    if isinstance(it, ast.Call) and call_name(it) in ("list", "tuple", "iter") and len(it.args) == 1:
+        it = it.args[0]
+    return isinstance(it, ast.Name) and it.id == X
+
+
+def _counts_distinct(e: ast.expr, X: str) -> bool:
+    """len(e) is the number of distinct elements of list X (by identity or by the elements' own hash/eq)."""
+    if isinstance(e, (ast.SetComp, ast.DictComp)):
+        return len(e.generators) == 1 and not e.generators[0].ifs and _iterates(e.generators[0].iter, X)
+    if isinstance(e, ast.Call) and call_name(e) in ("set", "frozenset", "unique", "fromkeys") and len(e.args) >= 1:
+        a = e.args[0]
+        if _iterates(a, X):
+            return True
+        if isinstance(a, (ast.GeneratorExp, ast.ListComp)):
+            return len(a.generators) == 1 and not a.generators[0].ifs and _iterates(a.generators[0].iter, X)
+        if isinstance(a, ast.Call) and call_name(a) == "map" and len(a.args) == 2 and u(a.args[0]) == "id":
+            return _iterates(a.args[1], X)
+    if isinstance(e, ast.Call) and call_name(e) in ("list", "tuple", "sorted") and len(e.args) == 1:
+        return _counts_distinct(e.args[0], X)
+    return False
+
+
 def _uniqueness_tests(fi: FnInfo, X: str) -> tuple[list[ast.stmt], bool]:
-    """(statements that establish that list `X` has no repeated element, whether some other construct merely
-    *looks* like an attempt).  Recognised forms:
-      * `if <len(set(.. X ..)) cmp len(X)>: raise`            (set of ids / of the grids themselves)
+    """(statements that establish that list `X` has no repeated element, whether some construct looks like such a test
+    without being one of the enumerated spellings).  Recognised:
+      * `if len(<distinct of X>) != / < len(X): raise` in either operand order (`>` mirrored), `== ... else: raise`,
+        `assert len(<distinct>) == len(X)`; <distinct of X> = set()/frozenset()/set- or dict-comprehension/np.unique/
+        dict.fromkeys over X, over id(x) for x in X, or map(id, X), possibly through one temporary
       * `if any(<a is b / a == b> for a in X for b in X ...): raise`   (double loop over the list itself)
       * `X = list(dict.fromkeys(X))` / `X = list(set(X))`      (de-duplication; every later loop sees unique items)"""
     found: list[ast.stmt] = []
     hint = False
+
+    def res(e: ast.expr, at: ast.stmt) -> ast.expr:
+        if isinstance(e, ast.Name) and e.id != X:
+            r = fi.resolve(e, at)
+            if r and len(r) == 1:
+                return r[0]
+        return e
+
+    def len_cmp(c: ast.Compare, at: ast.stmt):
+        """-> 'ne' | 'eq' | None for a comparison len(distinct) <op> len(X) that is false/true exactly for unique lists."""
+        sides = [res(c.left, at), res(c.comparators[0], at)]
+        if not all(isinstance(x, ast.Call) and call_name(x) == "len" and len(x.args) == 1 for x in sides):
+            return None
+        args = [res(x.args[0], at) for x in sides]
+        d = [_counts_distinct(a, X) for a in args]
+        pl = [_iterates(a, X) for a in args]
+        if d[0] and pl[1]:
+            op_ok = isinstance(c.ops[0], (ast.NotEq, ast.Lt))
+        elif pl[0] and d[1]:
+            op_ok = isinstance(c.ops[0], (ast.NotEq, ast.Gt))
+        else:
+            return None
+        if op_ok:
+            return "ne"
+        return "eq" if isinstance(c.ops[0], ast.Eq) else "other"
+
     for s in stmts_local(fi.fn):
-        if isinstance(s, ast.If) and any(isinstance(n, ast.Raise) for b in s.body for n in ast.walk(b)):
-            for c in [n for n in ast.walk(s.test) if isinstance(n, ast.Compare) and len(n.ops) == 1]:
-                sides = [c.left, c.comparators[0]]
-                is_len = [isinstance(x, ast.Call) and call_name(x) == "len" and len(x.args) == 1 for x in sides]
-                if all(is_len) and not isinstance(c.ops[0], (ast.Eq, ast.Is)):
-                    args = [x.args[0] for x in sides]
-                    sets = [a for a in args if isinstance(a, ast.Call) and call_name(a) in ("set", "frozenset")
-                            and X in names_in(a)]
-                    plain = [a for a in args if isinstance(a, ast.Name) and a.id == X]
-                    if len(sets) == 1 and len(plain) == 1:
-                        found.append(s)
-            for comp in [n for n in ast.walk(s.test) if isinstance(n, (ast.ListComp, ast.GeneratorExp))]:
-                gens = [g for g in comp.generators if X in names_in(g.iter)]
-                if len(gens) >= 2 and any(isinstance(n, ast.Compare) and isinstance(n.ops[0], (ast.Is, ast.Eq))
-                                          for n in ast.walk(comp.elt)):
+        if isinstance(s, (ast.If, ast.Assert)):
+            raises_body = isinstance(s, ast.If) and any(isinstance(n, ast.Raise) for b_ in s.body for n in ast.walk(b_))
+            raises_else = isinstance(s, ast.If) and any(isinstance(n, ast.Raise) for b_ in s.orelse for n in ast.walk(b_))
+            t = s.test
+            top = t.values if isinstance(t, ast.BoolOp) and isinstance(t.op, ast.Or) else [t]
+            for c in [n for n in top if isinstance(n, ast.Compare) and len(n.ops) == 1]:
+                k = len_cmp(c, s)
+                if k == "ne" and raises_body:
                     found.append(s)
+                elif k == "eq" and len(top) == 1 and (raises_else or isinstance(s, ast.Assert)):
+                    found.append(s)
+                elif k is not None:
+                    hint = True
+            if raises_body:
+                for comp in [n for n in ast.walk(t) if isinstance(n, (ast.ListComp, ast.GeneratorExp))]:
+                    gens = [g for g in comp.generators if X in names_in(g.iter)]
+                    if len(gens) >= 2 and any(isinstance(n, ast.Compare) and isinstance(n.ops[0], (ast.Is, ast.Eq))
+                                              for n in ast.walk(comp.elt)):
+                        found.append(s)
         if isinstance(s, ast.Assign) and any(isinstance(t, ast.Name) and t.id == X for t in s.targets):
             v = s.value
-            inner = v.args[0] if isinstance(v, ast.Call) and call_name(v) in ("list", "tuple") and len(v.args) == 1 else v
-            if isinstance(inner, ast.Call) and call_name(inner) in ("fromkeys", "set") and inner.args \
-                    and X in names_in(inner.args[0]):
+            if _counts_distinct(v, X) and not isinstance(v, (ast.SetComp, ast.DictComp)):
                 found.append(s)
     if not found:
         for n in walk_local(fi.fn):
-            if isinstance(n, ast.Call) and call_name(n) in UNIQ_HINTS and X in names_in(n):
+            if isinstance(n, (ast.SetComp, ast.DictComp)) and X in names_in(n):
+                hint = True
+            if isinstance(n, ast.Call) and call_name(n) in UNIQ_HINTS + ("Counter", "unique") and X in names_in(n):
                 hint = True
     return found, hint
 
